@@ -42,7 +42,7 @@ def configs(chk):
         if size and (not chk.quick or len(out) % 3 == 0):
             out.append((name, "2d", {size[0]: 2}, 0, "Iq", "C06", frozenset(first)))
         if not chk.quick:
-            if 1 < len(slds) <= 3:
+            if len(slds) == 2:      # all SLDs magnetic at once (3 SLDs: 136 paths / 7 min per model, not run)
                 allm = set(POL)
                 for s_ in slds:
                     allm |= tri(s_)
@@ -67,7 +67,7 @@ def run(chk):
         "statement's (w_du+w_ud)[I(e1)+I(e2)] form follows when I is even in the SLDs), with all magnitudes zero "
         "selecting the ordinary kernel, also under a size or orientation distribution.")
     chk.bounds = {"magnetic block": "polarisation parameters + the (M0,mtheta,mphi) of the first / last SLD symbolic "
-                                    "(all SLDs for models with <=3, thorough); other magnitudes 0",
+                                    "(both SLDs for two-SLD models, thorough); other magnitudes 0",
                   "mesh": "mono; one size parameter x2 (subset in quick); one jitter angle x2 (thorough); nq=1"}
     chk.outside = ["contributions of channels whose weight is below the kernel's 1e-8 threshold",
                    "q = 0 (|q|^2 <= 1e-16 guard)", "evenness of I in the SLDs (needed only to fold the statement's form)",
